@@ -1,5 +1,5 @@
 rc_target("c06_pq", flavour="asan-dbg")
-plan("C06", [T("c06_pq", 20000, 120000)], min_nt=200,
+plan("C06", [T("c06_pq", 20000, 120000), TT(GCC("c06_pq"), 20000)], min_nt=200,
      rule="stateful op sequences against a reference multiset + handle table",
      technique="model-based property testing (rapidcheck): op sequences vs. reference multiset + handle table, heap-order invariant after every step",
      level_text="Generated search: thousands of shrinking op sequences per run over push/push_ref/pop/top/remove/clear for 9 element sizes, "
